@@ -4,6 +4,7 @@
   specification `Defects := {}`.
 -/
 import AxVerif.Lemmas.ValueFloat
+import AxVerif.Generated.Value
 namespace AxVerif.Value
 open AxVerif
 
@@ -550,6 +551,12 @@ theorem key_collision_witness :
     compareKeys { nanUnordered := true } [.double] (layoutKeys 0 [.double 9221120237041090560]) 0
       (layoutKeys 0 [.double 4607182418800017408]) 0 = .error .nullKey := by
   refine ⟨by decide +kernel, by decide +kernel, by decide +kernel⟩
+
+/-! ## The constants the model relies on are the ones the code has -/
+
+/-- `MAX_VARINT_LEN`, the discriminant / `SIZE` / `ALIGN` / `is_numeric` of every `DataTypeKind`, the key offset of a
+    one-value tuple and the cast matrix — evaluated out of the code on this run — are what the model assumes. -/
+theorem generated_wf : Generated.valueParams = stdParams := by decide +kernel
 
 /-- Non-vacuity of the hypotheses above. -/
 example : Value.Wf (.blob [1, 2, 3]) ∧ Value.Wf (.double 9221120237041090560) ∧ Value.Wf (.int (-2147483648)) := by decide
